@@ -342,6 +342,8 @@ func Vars(d gen.DataSpec, p *Probes) jet.VarMap {
 	vm.Set("strfn", func(x fmt.Stringer) string { return "stringer" })
 	vm.Set("nofn", func() string { return "nofn" })
 	vm.Set("nilfn", (func() string)(nil))
+	vm.Set("bytesv", []byte("ab"))
+	vm.Set("arrfn", func(a [4]string) int { return len(a) })
 	vm.Set("zstr", "")
 	vm.Set("zint", 0)
 	vm.Set("zst", struct{ A int }{})
